@@ -82,13 +82,13 @@ def _deductive_task(arg) -> dict:
         known = [k for k in load_known() if k.get('status') == 'open' and k.get('kind', 'deductive') == 'deductive'
                  and pid in k.get('properties', [k.get('property')])]
         obs = []
-        retries_left = 3
+        retries_left = 2
         mine = [ob for ob in rep.obligations if pid in ob.props]
         open_count = 0
         for k, ob in enumerate(mine):
             if k % nshards != shard:
                 continue
-            if open_count >= 8:
+            if open_count >= 5:
                 # enough obligations of this shard are open to report; the remaining ones are not attempted on this run (they are listed as skipped)
                 obs.append({'name': ob.name, 'kind': ob.kind, 'scenario': ob.scenario, 'path': list(ob.path), 'status': 'skipped', 'backend': 'not attempted',
                             'seconds': 0.0, 'model': None, 'line': ob.line, 'model_values': None, 'known': None, 'smt2_sha': None})
@@ -162,6 +162,11 @@ def _bounded_task(arg) -> dict:
         return {'name': f'{pid}#bounded{idx}', 'error': f'{type(ex).__name__}: {ex}\n{traceback.format_exc()}',
                 'evaluations': 0, 'distinct_nontrivial': 0, 'violations': 0, 'violation_list': [], 'covers': {},
                 'required_covers': [], 'samples': [], 'bound': '', 'seconds': 0}
+
+
+def _any_task(job):
+    kind, i, arg = job
+    return kind, i, (_bounded_task(arg) if kind == 'b' else _deductive_task(arg))
 
 
 def merge_shards(results: List[dict]) -> List[dict]:
@@ -256,11 +261,25 @@ def main(argv=None) -> int:
                 tasks_d.append((pid, i, args.tier, scen, sh, k))
     tasks_b = [] if args.no_bounded else [(pid, i, args.tier, seed) for i in range(len(prop.bounded))]
     ctxm = mp.get_context('fork')
+    # Bounded tasks are queued first.  Once every bounded task has reported and at least one of them holds a violation that no listed finding
+    # explains (an input replayed on the real code), the verdict of this run is settled: deductive tasks still running are abandoned (their
+    # obligations are reported as not attempted) instead of spending their time-outs on a tree that is already known to break the property.
+    open_sigs = {k['sig'] for k in known if k.get('kind') == 'bounded' and k.get('status') == 'open'}
+    early_stop = False
+    ded_by_i, bnd_by_i = {}, {}
     with ctxm.Pool(min(args.jobs, max(1, len(tasks_d) + len(tasks_b)))) as pool:
-        rd = pool.map_async(_deductive_task, tasks_d, chunksize=1)
-        rb = pool.map_async(_bounded_task, tasks_b, chunksize=1)
-        ded = rd.get()
-        bnd = rb.get()
+        jobs = [('b', i, t) for i, t in enumerate(tasks_b)] + [('d', i, t) for i, t in enumerate(tasks_d)]
+        for kind, i, r in pool.imap_unordered(_any_task, jobs, chunksize=1):
+            (bnd_by_i if kind == 'b' else ded_by_i)[i] = r
+            if len(bnd_by_i) == len(tasks_b) and tasks_b and len(ded_by_i) < len(tasks_d) and os.environ.get('VERIF_NO_EARLY_STOP') != '1':
+                fresh = [v for rr in bnd_by_i.values() for v in rr.get('violation_list', [])
+                         if v['sig'] not in open_sigs and not v['sig'].startswith('encoder.')]
+                if fresh and not any(rr.get('error') for rr in bnd_by_i.values()):
+                    early_stop = True
+                    pool.terminate()
+                    break
+    bnd = [bnd_by_i[i] for i in sorted(bnd_by_i)]
+    ded = [ded_by_i[i] for i in sorted(ded_by_i)]
 
     raw_ded = ded
     ded = merge_shards(ded)
@@ -446,7 +465,9 @@ def main(argv=None) -> int:
         lines.append(f'OUT-OF-SUBSET {c}: {m}')
 
     # vacuity guards
-    if prop.contracts and n_ob == 0 and not checker_errors:
+    if early_stop:
+        lines.append(f'note: a bounded check replayed a violation on the real code; {len(tasks_d) - len(ded_by_i)} of {len(tasks_d)} deductive tasks were abandoned (not attempted on this run)')
+    if prop.contracts and n_ob == 0 and not checker_errors and not early_stop:
         lines.append(f'CHECKER-ERROR zero obligations generated for {pid}')
         checker_errors.append('zero obligations')
     for r in bnd:
@@ -459,7 +480,7 @@ def main(argv=None) -> int:
     for r in ded:
         need = getattr(next((c for c in prop.contracts if c.qualname == r['contract']), None), 'required_covers', ())
         miss = [c for c in need if c not in r['covers']]
-        if miss and not r.get('error') and not r['out_of_subset'] and all(o['status'] in ('discharged', 'known-finding') for o in r['obligations']):
+        if miss and not early_stop and not r.get('error') and not r['out_of_subset'] and all(o['status'] in ('discharged', 'known-finding') for o in r['obligations']):
             lines.append(f"CHECKER-ERROR contract {r['contract']}: cover(s) never reached: {miss}")
             checker_errors.append('cover')
 
@@ -501,6 +522,7 @@ def main(argv=None) -> int:
         'rule': 'bounded layer: cases enumerated/sampled per check (bound stated per check); a case is non-trivial when it reaches the '
                 'guarded branch of the clause under test, distinct by canonical input; measured by the harness',
         'known_findings_printed': sorted(known_printed),
+        'deductive_tasks': len(tasks_d), 'deductive_tasks_abandoned_after_replayed_violation': (len(tasks_d) - len(ded_by_i)) if early_stop else 0,
         'tree_sha256': cur_tree, 'baseline_tree_sha256': baseline['tree'] if baseline else None,
         'findings_of_other_properties_observed': sorted(foreign_seen),
         'explanation': prop.explanation,
@@ -521,7 +543,9 @@ def main(argv=None) -> int:
     os.makedirs(EVIDENCE_DIR, exist_ok=True)
     with open(os.path.join(EVIDENCE_DIR, f'{pid}.json'), 'w') as f:
         json.dump(evidence, f, indent=1, default=str)
-    if args.update_baseline:
+    if args.update_baseline and (early_stop or violations or _SCRATCH_RUN):
+        print('baseline NOT updated: the run reports violations or was made against a scratch copy')
+    elif args.update_baseline:
         os.makedirs(BASELINE_DIR, exist_ok=True)
         keys = {}
         for o in all_obs:
